@@ -1,5 +1,7 @@
-use vkit::Check;
+mod c26;
+mod common;
+use vkit::{Check, Level};
 fn main() {
-    let checks: &[Check] = &[];
+    let checks: &[Check] = &[Check { id: "C26", level: Level::Exploration, run: c26::run }];
     vkit::main(checks);
 }
